@@ -254,6 +254,13 @@ struct Visitor : RecursiveASTVisitor<Visitor> {
     if (!seenR.insert(R->getCanonicalDecl()).second) return true;
     recs.push_back(X.record(R)); return true;
   }
+  bool VisitEnumConstantDecl(EnumConstantDecl* D) {
+    if (!X.inRepoInclude(D->getLocation())) return true;
+    if (!seenG.insert(D->getCanonicalDecl()).second) return true;
+    J::Object o; o["qname"] = X.qname(D); o["t"] = "enum"; o["loc"] = X.loc(D->getLocation()); o["const"] = true;
+    o["value"] = (int64_t)D->getInitVal().getExtValue();
+    globs.push_back(std::move(o)); return true;
+  }
   bool VisitVarDecl(VarDecl* V) {
     if (!V->hasGlobalStorage() || V->isStaticLocal() || !V->hasInit() || V->getType()->isDependentType()) return true;
     if (!X.inRepoInclude(V->getLocation())) return true;
